@@ -133,7 +133,7 @@ pub fn check(q: &EllQ, listed_kf1: bool, part: &mut Part) -> V {
 pub fn run(ctx: &Ctx) -> i32 {
   let quick = ctx.quick();
   let listed_kf1 = ctx.findings.listed("C13", KF1);
-  let dmax: u8 = if quick { 3 } else { 5 };
+  let dmax: u8 = if quick { 4 } else { 5 };
   let deltas: Vec<u8> = if quick { vec![0, 1] } else { vec![0, 1, 2] };
   let cs = centres(quick);
   let t = thresholds();
